@@ -547,8 +547,12 @@ type c07bCfg struct {
 }
 
 // freshVector is what a brand-new router (and a new Hosts / Group) answers.
-func freshVector() []string {
-	var v []string
+func freshVector() (v []string) {
+	defer func() {
+		if e := recover(); e != nil { // whatever made a brand-new instance fault is an observation like any other
+			v = append(v, fmt.Sprintf("PANIC while building and observing brand-new instances: %v", e))
+		}
+	}()
 	for _, trace := range []bool{false, true} {
 		r := NewRouter(RouterCfg{Trace: trace})
 		v = append(v, fmt.Sprintf("trace=%v empty: %s", trace, strings.Join(c17Vector(r, []string{"/posts", "/p/zz"}), " ## ")))
